@@ -59,7 +59,7 @@ def task(t):
                     unit = run.unit_of(o.state, q, o.value)
                     R.oblig(pair + " unit", unit == ua, False)
                     if unit != ua:
-                        R.candidates.append(E.cand("C03", "unit", be, w, op, [q], [ua, ub], None, pair, note="result unit %s" % unit))
+                        R.candidates.append(E.cand("C03", "unit", be, w, op, [q], [ua, ub], E.path_amounts(sv, hyp, [a, b], be), pair, note="result unit %s" % unit))
                     r = run.amount_of(o.state, q, o.value)
                     Tt = a.term + D if op == "add" else a.term - D
                     if be == "f64":
